@@ -26,7 +26,13 @@ var (
 	ErrDiscardedTxn = errors.New("transaction has been discarded")
 	ErrConflictTxn  = errors.New("transaction has a conflict")
 	ErrEmptyKey     = errors.New("key is empty")
+	ErrKeyTooLarge  = errors.New("key is too large")
 )
+
+// maxKeySize is the largest user key the table format can hold: key lengths
+// are stored in 16 bits and the stored key carries an "@<version>" suffix of
+// up to 21 bytes.
+const maxKeySize = 65535 - 21
 
 type Txn struct {
 	readOnly  bool
@@ -151,6 +157,8 @@ func (t *Txn) modify(e types.Entry) error {
 		return ErrDiscardedTxn
 	case e.Key == "":
 		return ErrEmptyKey
+	case len(e.Key) > maxKeySize:
+		return ErrKeyTooLarge
 	}
 
 	// record key fingerprint
